@@ -6,7 +6,7 @@ b = json.load(open('/root/.vp/BASELINE.json'))
 want = set(b['stable_pass'])
 got = set()
 for line in open(sys.argv[1], errors='replace'):
-    m = re.match(r'\s+PASS \[[^\]]*\]\s+(?:\(\s*\d+/\d+\)\s+)?(\S+)\s+(\S+)', line)
+    m = re.match(r'\s+(?:PASS|LEAK) \[[^\]]*\]\s+(?:\(\s*\d+/\d+\)\s+)?(\S+)\s+(\S+)', line)
     if m:
         got.add(m.group(1) + '::' + m.group(2))
 missing = sorted(want - got)
